@@ -125,7 +125,8 @@ class Ctx:
                 if cyc:
                     self.violation('deadlock', where, 'wait-for cycle at watchdog', r.scenario, r.flavour, meta)
                 else:
-                    self.violation('hang', where, f'watchdog expired in {where} without a lock cycle', r.scenario, r.flavour, meta)
+                    why = next((h.get('why') for h in r.by('hang') if h.get('why')), None)
+                    self.violation('hang', where, (why or f'wall-clock watchdog expired in {where}') + ' (no lock cycle)', r.scenario, r.flavour, meta)
         elif oc == 'crash' and n == 0:
             last = [e for e in r.events if e.get('e') in ('call',)]
             where = last[-1].get('f', '?') if last else '?'
@@ -147,6 +148,7 @@ class Ctx:
         coverage = {'evaluations': self.evaluations, 'distinct_nontrivial': len(self.nontrivial), 'rule': self.rule,
                     'samples': self.samples or [{'note': 'no sample recorded'}]}
         coverage.update(cov)
+        coverage['max_event_log_bytes'] = runner.MAXLOG[0]
         coverage['known_findings_hit'] = dict(self.known_hit)
         coverage['violation_signatures'] = sorted(self.viol)
         coverage['inconclusive'] = self.inconclusive[:10]
@@ -159,7 +161,7 @@ class Ctx:
             print(f'KNOWN-FINDING: property={self.pid} sig={sig} x{cnt} {self.known.get((self.pid, sig), "")}')
         print(f'[{self.pid}] tier={self.tier} seed={self.seed} evaluations={self.evaluations} '
               f'distinct_nontrivial={len(self.nontrivial)} wall={wall:.1f}s ' +
-              ' '.join(f'{k}={v}' for k, v in sorted(cov.items()) if isinstance(v, (int, float))))
+              ' '.join(f'{k}={v}' for k, v in sorted(cov.items()) if isinstance(v, (int, float))) + f' maxlog={runner.MAXLOG[0]}')
         if self.viol:
             for sig, v in sorted(self.viol.items()):
                 print(f'VIOLATION property={self.pid} replay={v["replay"]}  sig={sig} x{v["count"]} :: {str(v["detail"])[:300]}')
